@@ -1961,3 +1961,141 @@ Proof.
   - intros x o. unfold load, pbal; simpl. rewrite !lookup_empty. simpl. done.
   - reflexivity.
 Qed.
+
+(* ---- starting states --------------------------------------------------------------------- *)
+Lemma fold_insert_other x l : forall (m : gmap (addr * key) Z) y k, y <> x ->
+  fold_left (fun m (kv : key * Z) => <[(x, kv.1) := kv.2]> m) l m !! (y, k) = m !! (y, k).
+Proof.
+  induction l as [|kv l IH]; intros m y k Hne; simpl; [reflexivity|].
+  rewrite IH by done. rewrite lookup_insert_ne; [reflexivity|congruence].
+Qed.
+Lemma fold_insert_own x l : forall (m : gmap (addr * key) Z) k, NoDup l.*1 ->
+  fold_left (fun m (kv : key * Z) => <[(x, kv.1) := kv.2]> m) l m !! (x, k) =
+    match (list_to_map l : gmap key Z) !! k with Some v => Some v | None => m !! (x, k) end.
+Proof.
+  induction l as [|[k0 v0] l IH]; intros m k Hnd; simpl; [rewrite lookup_empty; reflexivity|].
+  inversion Hnd as [|? ? Hnotin Hnd']; subst. rewrite IH by done.
+  destruct (decide (k = k0)) as [->|Hne].
+  - assert (<[k0:=v0]> (list_to_map l : gmap key Z) !! k0 = Some v0) as -> by apply lookup_insert.
+    rewrite (not_elem_of_list_to_map_1 _ _ Hnotin). rewrite lookup_insert. reflexivity.
+  - assert (<[k0:=v0]> (list_to_map l : gmap key Z) !! k = (list_to_map l : gmap key Z) !! k) as ->
+      by (apply lookup_insert_ne; congruence).
+    destruct ((list_to_map l : gmap key Z) !! k); [reflexivity|].
+    rewrite lookup_insert_ne; [reflexivity|congruence].
+Qed.
+
+Lemma pers_add_other p s y : y <> sa_addr s -> agree_at y p (pers_add p s).
+Proof.
+  intros Hne. unfold pers_add. destruct (sa_native s); split; simpl.
+  - reflexivity.
+  - split; [rewrite lookup_insert_ne by done; reflexivity|reflexivity].
+  - rewrite lookup_insert_ne by done. reflexivity.
+  - split; [rewrite lookup_insert_ne by done; reflexivity|]. intros k. apply fold_insert_other. exact Hne.
+Qed.
+Lemma pers_add_codes p s h : is_Some (p_codes p !! h) -> is_Some (p_codes (pers_add p s) !! h).
+Proof.
+  intros H. unfold pers_add. destruct (sa_native s); simpl; [exact H|].
+  destruct (sa_code s =? 0)%N; [exact H|].
+  destruct (decide (sa_code s = h)) as [->|]; [rewrite lookup_insert; eauto|rewrite lookup_insert_ne by done; exact H].
+Qed.
+Lemma fold_pers_codes st : forall p h, is_Some (p_codes p !! h) -> is_Some (p_codes (fold_left pers_add st p) !! h).
+Proof. induction st as [|s st IH]; intros p h H; simpl; [exact H|]. apply IH, pers_add_codes, H. Qed.
+Lemma fold_pers_absent st : forall p x, x ∉ sa_addr <$> st -> agree_at x p (fold_left pers_add st p).
+Proof.
+  induction st as [|s st IH]; intros p x Hx; simpl; [apply agree_refl|].
+  rewrite fmap_cons, not_elem_of_cons in Hx. destruct Hx as [Hne Hx].
+  eapply agree_trans; [apply pers_add_other; exact Hne|apply IH; exact Hx].
+Qed.
+Lemma fold_pers_present st : forall p s0, NoDup (sa_addr <$> st) -> s0 ∈ st ->
+  exists p0, agree_at (sa_addr s0) p p0 /\ agree_at (sa_addr s0) (pers_add p0 s0) (fold_left pers_add st p) /\
+    (forall h, is_Some (p_codes (pers_add p0 s0) !! h) -> is_Some (p_codes (fold_left pers_add st p) !! h)).
+Proof.
+  induction st as [|s st IH]; intros p s0 Hnd Hin; [inversion Hin|].
+  rewrite fmap_cons in Hnd. inversion Hnd as [|? ? Hnotin Hnd']; subst. simpl.
+  apply elem_of_cons in Hin. destruct Hin as [->|Hin].
+  - exists p. split; [apply agree_refl|]. split; [apply fold_pers_absent; exact Hnotin|]. intros h H. apply fold_pers_codes, H.
+  - assert (sa_addr s0 <> sa_addr s) as Hne.
+    { intros Heq. apply Hnotin. rewrite <- Heq. apply elem_of_list_fmap. eauto. }
+    destruct (IH (pers_add p s) s0 Hnd' Hin) as (p0 & A & B & K).
+    exists p0. split; [eapply agree_trans; [apply pers_add_other; exact Hne|exact A]|]. split; [exact B|exact K].
+Qed.
+
+Lemma Inv_start st : start_okb st = true -> Inv (a_init st) (spec_init st).
+Proof.
+  intros Hok. unfold start_okb in Hok. apply andb_prop in Hok. destruct Hok as [Hall Hnd].
+  apply bool_decide_eq_true in Hnd. rewrite forallb_forall in Hall.
+  set (pe := {| p_keeper := ∅; p_bal := ∅; p_cstore := ∅; p_codes := ∅ |}).
+  set (p := fold_left pers_add st pe).
+  set (m := (list_to_map ((fun a => (sa_addr a, start_acct_of a)) <$> st) : gmap addr acct)).
+  assert (forall x, orel p x (load p x) (m !! x) /\ (load p x = None -> forall k, pslot p x k = 0) /\
+                    (forall o, load p x = Some o -> obj_empty o = false)) as Hx.
+  { intros x. destruct (decide (x ∈ sa_addr <$> st)) as [Hin|Hnin].
+    - apply elem_of_list_fmap in Hin. destruct Hin as (s0 & -> & Hin).
+      destruct (fold_pers_present st pe s0 Hnd Hin) as (p0 & A0 & A1 & K). fold p in A1, K.
+      assert (m !! sa_addr s0 = Some (start_acct_of s0)) as ->.
+      { apply elem_of_list_to_map_1.
+        - rewrite <- list_fmap_compose. exact Hnd.
+        - apply elem_of_list_fmap. exists s0. split; [reflexivity|exact Hin]. }
+      assert (start_acct_okb s0 = true) as Hs0 by (apply Hall; apply elem_of_list_In; exact Hin).
+      destruct A0 as (Ak & Ab & Ac). unfold pe in Ak, Ab, Ac. simpl in Ak, Ab, Ac. rewrite lookup_empty in Ak. rewrite lookup_empty in Ab.
+      unfold start_acct_okb in Hs0. unfold start_acct_of.
+      rewrite (agree_load _ _ _ A1).
+      assert (forall k, pslot p (sa_addr s0) k = pslot (pers_add p0 s0) (sa_addr s0) k) as Hps by (intros k; apply (agree_pslot _ _ _ k A1)).
+      unfold pers_add in *. destruct (sa_native s0) eqn:Hnat.
+      + apply negb_true_iff, Z.eqb_neq in Hs0.
+        assert (load {| p_keeper := p_keeper p0; p_bal := <[sa_addr s0 := sa_bal s0]> (p_bal p0); p_cstore := p_cstore p0; p_codes := p_codes p0 |} (sa_addr s0)
+                = Some (mk_obj (sa_bal s0) 0 0%N)) as Hld.
+        { unfold load, pbal; simpl. rewrite Ak, lookup_insert. simpl. destruct (sa_bal s0 =? 0) eqn:E; [apply Z.eqb_eq in E; done|reflexivity]. }
+        rewrite Hld. split; [|split; [done|]].
+        * apply arel_mk; simpl.
+          -- reflexivity.
+          -- reflexivity.
+          -- reflexivity.
+          -- done.
+          -- reflexivity.
+          -- intros k. rewrite Hps. unfold pslot, sget; simpl. rewrite Ac, !lookup_empty. reflexivity.
+          -- intros k. rewrite Hps. unfold pslot, sget; simpl. rewrite Ac, !lookup_empty. reflexivity.
+          -- intros k. rewrite lookup_empty. done.
+        * intros o [= <-]. unfold obj_empty; simpl. destruct (sa_bal s0 =? 0) eqn:E; [apply Z.eqb_eq in E; done|reflexivity].
+      + apply andb_prop in Hs0. destruct Hs0 as [Hs0 Hndk]. apply andb_prop in Hs0. destruct Hs0 as [Hne Hnz].
+        apply bool_decide_eq_true in Hndk.
+        set (q := {| p_keeper := <[sa_addr s0 := (sa_nonce s0, sa_code s0)]> (p_keeper p0);
+                     p_bal := <[sa_addr s0 := sa_bal s0]> (p_bal p0);
+                     p_cstore := fold_left (fun m (kv : key * Z) => <[(sa_addr s0, kv.1) := kv.2]> m) (sa_stor s0) (p_cstore p0);
+                     p_codes := if (sa_code s0 =? 0)%N then p_codes p0 else <[sa_code s0 := tt]> (p_codes p0) |}) in *.
+        assert (load q (sa_addr s0) = Some (mk_obj (sa_bal s0) (sa_nonce s0) (sa_code s0))) as Hld.
+        { unfold load, pbal; simpl. rewrite !lookup_insert. reflexivity. }
+        assert (forall k, pslot p (sa_addr s0) k = sget (list_to_map (sa_stor s0)) k) as Hsl.
+        { intros k. rewrite Hps. unfold pslot, sget; simpl. rewrite (fold_insert_own _ _ _ _ Hndk).
+          destruct (list_to_map (sa_stor s0) !! k); [reflexivity|]. rewrite Ac, lookup_empty. reflexivity. }
+        rewrite Hld. split; [|split; [done|]].
+        * apply arel_mk; simpl.
+          -- reflexivity.
+          -- reflexivity.
+          -- reflexivity.
+          -- intros Hc. apply K. simpl. destruct (sa_code s0 =? 0)%N eqn:E; [apply N.eqb_eq in E; done|]. rewrite lookup_insert. eauto.
+          -- reflexivity.
+          -- exact Hsl.
+          -- exact Hsl.
+          -- intros k Hk. apply elem_of_list_to_map_2 in Hk. rewrite forallb_forall in Hnz.
+             apply elem_of_list_In in Hk. specialize (Hnz _ Hk). simpl in Hnz. done.
+        * intros o [= <-]. unfold obj_empty; simpl.
+          destruct (sa_nonce s0 =? 0), (sa_bal s0 =? 0), (sa_code s0 =? 0)%N; simpl in *; done.
+    - assert (m !! x = None) as ->.
+      { apply not_elem_of_list_to_map_1. rewrite <- list_fmap_compose. exact Hnin. }
+      pose proof (fold_pers_absent st pe x Hnin) as A. fold p in A.
+      assert (load p x = None) as Hld.
+      { rewrite (agree_load _ _ _ A). unfold load, pbal, pe; simpl. rewrite !lookup_empty. reflexivity. }
+      rewrite Hld. split; [exact I|]. split; [|done].
+      intros _ k. rewrite (agree_pslot _ _ _ k A). unfold pslot, pe; simpl. rewrite lookup_empty. reflexivity. }
+  split.
+  - intros x i. simpl. rewrite lookup_empty. split; [done|]. intros [o Ho]. rewrite lookup_nil in Ho. done.
+  - intros x i. simpl. rewrite lookup_empty. done.
+  - intros x Hl k. exact (proj1 (proj2 (Hx x)) Hl k).
+  - split; [|reflexivity]. intros x. unfold look; simpl. rewrite lookup_empty. exact (proj1 (Hx x)).
+  - reflexivity.
+  - split; [constructor|]. intros i j r1 r2 H. simpl in H. rewrite lookup_nil in H. done.
+  - constructor.
+  - intros x o Hl. exact (proj2 (proj2 (Hx x)) o Hl).
+  - reflexivity.
+Qed.
